@@ -280,6 +280,24 @@ func init() {
 			implies("(= "+sep+" \"\")", "(<= (s_len "+v.T+") (str.len "+s+"))"),
 			"(forall ((j Int)) (! (=> (and (<= 0 j) (< j (s_len "+v.T+"))) (and (str.contains "+s+" "+elem("j")+") (=> (not (= "+sep+" \"\")) (not (str.contains "+elem("j")+" "+sep+"))))) :pattern ("+elem("j")+")))",
 		))
+		if lit, ok := constString(c.Args[1]); ok && lit != "" {
+			// exact shape of the first three parts for a constant non-empty separator
+			ln := "(s_len " + v.T + ")"
+			sl := fmt.Sprint(len(lit))
+			i1 := e.sc.define("spl_i1", "Int", "(str.indexof "+s+" "+sep+" 0)")
+			r1 := e.sc.define("spl_r1", "String", "(str.substr "+s+" (+ "+i1+" "+sl+") (str.len "+s+"))")
+			i2 := e.sc.define("spl_i2", "Int", "(str.indexof "+r1+" "+sep+" 0)")
+			r2 := e.sc.define("spl_r2", "String", "(str.substr "+r1+" (+ "+i2+" "+sl+") (str.len "+r1+"))")
+			i3 := e.sc.define("spl_i3", "Int", "(str.indexof "+r2+" "+sep+" 0)")
+			has1, has2, has3 := "(>= "+i1+" 0)", "(>= "+i2+" 0)", "(>= "+i3+" 0)"
+			e.assume(st, and(
+				implies(has1, and("(= "+elem("0")+" (str.substr "+s+" 0 "+i1+"))",
+					implies("(not "+has2+")", and("(= "+ln+" 2)", "(= "+elem("1")+" "+r1+")")),
+					implies(has2, and("(>= "+ln+" 3)", "(= "+elem("1")+" (str.substr "+r1+" 0 "+i2+"))",
+						implies("(not "+has3+")", and("(= "+ln+" 3)", "(= "+elem("2")+" "+r2+")")),
+						implies(has3, and("(>= "+ln+" 4)", "(= "+elem("2")+" (str.substr "+r2+" 0 "+i3+"))")))))),
+				eq("(= "+ln+" 1)", "(not "+has1+")")))
+		}
 		return v, true
 	}
 	H["strings.SplitN"] = func(e *Engine, fc *fnCtx, st *State, c *ssa.CallCommon, a []Val, r types.Type) (Val, bool) {
@@ -515,6 +533,64 @@ func init() {
 	}
 	H["(*bufio.Scanner).Buffer"] = func(e *Engine, fc *fnCtx, st *State, c *ssa.CallCommon, a []Val, r types.Type) (Val, bool) {
 		return Val{S: "Tuple"}, true // changes capacity limits only: they show up as errors
+	}
+	// net/textproto.Reader.ReadMIMEHeader as a trusted stream contract: the reader's source is a sequence of header
+	// blocks recAt(src, 0) .. recAt(src, recCount(src)-1) (blocks separated by blank lines; a block may be empty).
+	// A call returns the next block with a nil error, or - at the end of the input - io.EOF together with either an
+	// empty header (input ended after a blank line) or the last block (input ended without one). Any other error may
+	// occur at any point.
+	H["bufio.NewReader"] = func(e *Engine, fc *fnCtx, st *State, c *ssa.CallCommon, a []Val, r types.Type) (Val, bool) {
+		ref := e.newRef(st, "bufreader")
+		e.setHeapIn(st, "HF_bufio.Reader_$src", "(Array Int Int)", store(e.heapIn(st, "HF_bufio.Reader_$src", "(Array Int Int)"), ref, a[0].T))
+		return Val{T: ref, S: "Int", GoT: r}, true
+	}
+	H["net/textproto.NewReader"] = func(e *Engine, fc *fnCtx, st *State, c *ssa.CallCommon, a []Val, r types.Type) (Val, bool) {
+		ref := e.newRef(st, "tpreader")
+		src := sel(e.heapIn(st, "HF_bufio.Reader_$src", "(Array Int Int)"), a[0].T)
+		e.setHeapIn(st, "HF_textproto.Reader_$src", "(Array Int Int)", store(e.heapIn(st, "HF_textproto.Reader_$src", "(Array Int Int)"), ref, src))
+		e.setHeapIn(st, "HF_textproto.Reader_$pos", "(Array Int Int)", store(e.heapIn(st, "HF_textproto.Reader_$pos", "(Array Int Int)"), ref, "0"))
+		e.sc.declareFun("recCount", []string{"Int"}, "Int")
+		e.sc.declareFun("recAt", []string{"Int", "Int"}, "Int")
+		if !e.sc.declared["recCountAx"] {
+			e.sc.declared["recCountAx"] = true
+			e.sc.assert("(forall ((s Int)) (! (>= (recCount s) 0) :pattern ((recCount s))))")
+			e.sc.assert("(forall ((s Int) (k Int)) (! (> (recAt s k) 0) :pattern ((recAt s k))))")
+		}
+		e.w.Trusted["textproto.Reader.ReadMIMEHeader: the header blocks are a function of the reader; a call yields the next block, or io.EOF with an empty header or with the last block"] = true
+		return Val{T: ref, S: "Int", GoT: r}, true
+	}
+	H["(*net/textproto.Reader).ReadMIMEHeader"] = func(e *Engine, fc *fnCtx, st *State, c *ssa.CallCommon, a []Val, r types.Type) (Val, bool) {
+		rd := a[0].T
+		e.sc.declareFun("recCount", []string{"Int"}, "Int")
+		e.sc.declareFun("recAt", []string{"Int", "Int"}, "Int")
+		src := sel(e.heapIn(st, "HF_textproto.Reader_$src", "(Array Int Int)"), rd)
+		posH := e.heapIn(st, "HF_textproto.Reader_$pos", "(Array Int Int)")
+		pos := e.sc.define("tp_pos", "Int", sel(posH, rd))
+		res := e.freshVal("mimehdr", r)
+		if len(res.Tuple) != 2 {
+			return Val{}, false
+		}
+		h, errv := res.Tuple[0], res.Tuple[1]
+		m, _ := h.GoT.Underlying().(*types.Map)
+		if m == nil {
+			return Val{}, false
+		}
+		_, _, dh, ds := e.mapHeapNames(m)
+		ks := e.sortOf(m.Key())
+		emptyHdr := "(= (select " + e.heapIn(st, dh, ds) + " " + h.T + ") ((as const (Array " + ks + " Bool)) false))"
+		eof := e.heapIn(st, "G_io.EOF", "Int")
+		e.sentinelFacts("G_io.EOF", eof)
+		// textproto reports the end of input as io.EOF itself, never wrapped
+		e.assume(st, implies("(errIs "+errv.T+" "+eof+")", "(= "+errv.T+" "+eof+")"))
+		n := "(recCount " + src + ")"
+		npos := e.sc.declareConst("tp_npos", "Int")
+		e.assume(st, and("(>= "+pos+" 0)", "(<= "+pos+" "+n+")", "(not (= "+h.T+" 0))",
+			implies("(= "+errv.T+" 0)", and("(< "+pos+" "+n+")", "(= "+h.T+" (recAt "+src+" "+pos+"))", "(= "+npos+" (+ "+pos+" 1))")),
+			implies("(= "+errv.T+" "+eof+")", and("(= "+npos+" "+n+")",
+				"(or (and (= "+pos+" "+n+") "+emptyHdr+") (and (= (+ "+pos+" 1) "+n+") (= "+h.T+" (recAt "+src+" "+pos+"))))")),
+			implies(and("(not (= "+errv.T+" 0))", "(not (= "+errv.T+" "+eof+"))"), "(= "+npos+" "+pos+")")))
+		e.setHeapIn(st, "HF_textproto.Reader_$pos", "(Array Int Int)", store(posH, rd, npos))
+		return res, true
 	}
 	// maps.Values / maps.Keys (x/exp and std-lib collectors): a fresh slice holding each present key's value (key)
 	// exactly once, in unspecified order - a bijection between the present keys and the indices of the result.
@@ -1122,6 +1198,7 @@ var pureExternal = map[string]bool{
 	"(deps.dev/util/resolve.System).Semver":  true,
 	"(*deps.dev/util/semver.System).Compare": true,
 	"(*deps.dev/util/semver.Version).Compare":      true,
+	"(net/textproto.MIMEHeader).Get":               true,
 	"(*deps.dev/util/semver.Version).String":       true,
 	"(*deps.dev/util/semver.Version).Difference":   true,
 	"(*deps.dev/util/semver.Constraint).IsSimple":  true,
